@@ -25,7 +25,8 @@ THEOREMS = [P + t for t in (
     "invD_xop", "inv_xop", "invN_xop", "invD_call", "inv_call", "invN_call", "history_of_step", "invD_calls_partial", "inv_calls_partial",
     "invN_calls_partial", "invD_calls_from_empty",
     "rename_names_counterexample", "nsAddInterface_names_counterexample", "nsAddInterface_sp_counterexample",
-    "addLink_sp_counterexample", "connect_names_counterexample")] + ["FimVerif.Topo." + t for t in (
+    "addLink_sp_counterexample", "connect_names_counterexample", "setName_names_counterexample", "setType_sp_counterexample", "peer_self_names_counterexample",
+    "setPropsNT_eq_setProps")] + ["FimVerif.Topo." + t for t in (
     "invS_grow", "invD_grow", "invD_dropNode", "invS_mapNodes", "namesOk_mapNodes", "invS_addNode", "invS_nsAddInterface", "invS_addLink",
     "invS_connect", "invS_addComponent", "invS_addStorage", "invS_addService", "invS_nodeAddService", "invD_addService",
     "invD_nodeAddService", "invD_addComponent", "svcLoop_ok", "svcLoop_invD", "catalog_ok", "invS_addFacility", "invS_addSwitch",
@@ -37,35 +38,43 @@ THEOREMS = [P + t for t in (
     "handleOk_of_childrenOf", "inv_addComponentMT", "inv_addComponent_anyHandle", "inv_addStorage_anyHandle", "peer_ok_state", "invS_peerState",
     "invD_peerState", "namesCore_peerState", "peer_inv", "invS_peer", "invD_peer", "invSN_peer")]
 TRUSTED_BASE = [
-    "Model/Topo.lean (hand-mirrored topology API, see C09) - checked differentially call by call, including the four name views",
+    "Model/Topo.lean (hand-mirrored topology API, both alphabets TopoOp / XOp, see C09), Model/TopoExt.lean (set_property with the keywords "
+    "name / type), Model/TopoView.lean (a view object and the calls on it) - checked differentially call by call",
     "Topo.Inv (Proofs/Lemmas/TopoInv.lean) is the reading of the statement's conjuncts on the model state; edges are read container-first "
     "(the order in which every building call passes the two ends) - tied to the published rules by evaluating every conjunct on every "
     "state of the correspondence run in the Lean driver and comparing the verdicts with the rule oracle's on the implementation's graph",
     "gen/rules.py: regexes that read the vocabularies out of graph_validation_rules.json and pin the list of rule kinds; enum members by import",
+    "gen/viewdict.py: ast reading of class ViewOnlyDict (one base, defined methods, __init__ shape) + behaviour probe of every in-place "
+    "method of dict on an instance and of the sequence type of every interface_list",
     "the Python transliteration of the 11 non-cardinality rules + containment/name-scope rules in props/c07.py (the oracle)",
-    "post-state lemmas of the C09 development (Proofs/Lemmas/TopoAtomic*.lean: ifaceNew_cases, linkNew_cases, connect_spec) - proved, "
-    "imported read-only",
+    "post-state / atomicity lemmas of the C09 development (Proofs/Lemmas/TopoAtomic*.lean: ifaceNew_cases, linkNew_cases, connect_spec, "
+    "svcNew_atomic, addFacility_fs, addSwitch_fs, peer_fs) - proved, imported read-only",
 ]
 ASSUMPTIONS = [
-    "NetworkX backend, single thread, ASCII names; uuid4 freshness (guard FreshTwo in CoveredS/CoveredD)",
+    "NetworkX backend, single thread, ASCII names; uuid4 freshness (guards FreshTwo / FreshFromC / PeerGuard in CoveredS / CoveredD)",
     "the two cardinality rules (L2PTP/L2Path connect two, PortMirror connects one) constrain finished slices (C10) and are not demanded after every call",
     "PARTIAL: (1) the downward-closed invariant InvD (ids distinct, no dangling edge, vocabularies, containment structure, AT MOST one "
-    "owner / parent / peer) is proved for every history over ALL 23 building calls of the model, any state, any outcome, under the "
-    "decidable guard CoveredD (argument types from the API enums, handles refer to elements of their class, fresh uuids, no ServicePort "
-    "handed to add_link/connect); (2) InvS (EXACTLY one owner / parent / peer) is proved for every history of the creating and property "
-    "calls under CoveredS (additionally: add_interface not used to create a ServicePort; a service constructor or composite that raises "
-    "after its rollback ran left the model unchanged - C09 proves that for at most one interface); (3) InvS together with four of the six name scopes (nodes, components of a node, "
-    "services of a node/component, top-level services: NamesCore) for every history of the creating calls except rename (CoveredN = CoveredS "
-    "minus rename; the sibling-name guards of the code are read through "
-    "kids_sub_childrenOf / sibling_free); (4) the full Inv with all six name scopes only for add_node, set/unset property",
-    "NOT proved (oracle + correspondence only): 'exactly one' after removing calls / disconnect / remove_interface (C08's subject); the "
-    "Link and interface-of-a-service name scopes (broken by the code: known findings with _counterexample theorems); every name scope "
-    "under rename (known finding); the name scopes under removals",
-    "building calls not in the model: peer/unpeer, add_child_interface/remove_child_interface, add_port_mirror_service, prune",
+    "owner / parent / peer) is proved for every history over ALL 30 building calls of both alphabets (invD_calls_partial), any state, any "
+    "outcome, under decidable guards on the ARGUMENTS only (types from the API enums, service / interface / port handles refer to "
+    "elements of their class, fresh uuids, no ServicePort handed to add_link/connect); (2) InvS (EXACTLY one owner / parent / peer) is "
+    "proved for every history of the creating and property calls of both alphabets (inv_calls_partial: add_node, add_component also "
+    "model_type=, add_storage, add_network_service on topology and node, add_port_mirror_service, add_facility, add_switch, add_interface "
+    "not of type ServicePort, add_child_interface, add_link, connect_interface, peer, set/unset property, rename) - the former side "
+    "condition ReturnsOrUnchanged is now a consequence of the invariant (C09's atomicity theorems); (3) InvS together with four of the "
+    "six name scopes (NamesCore) for the same calls except rename (invN_calls_partial); (4) the full Inv with all six name scopes only "
+    "for add_node, set/unset property (keywords other than name / type)",
+    "NOT proved (oracle + correspondence only): 'exactly one' after the REMOVING calls (remove_*, disconnect, remove_interface, "
+    "remove_child_interface, unpeer, prune: that removals leave no orphan is C08's subject; here every rule is evaluated after every "
+    "call of histories that interleave additions and removals); the Link and interface-of-a-service name scopes and every name scope "
+    "under rename / set_property('name') (broken by the code: known findings with _counterexample theorems); the name scopes under removals",
+    "views: the dictionary views are modelled as objects over the four top-level listings; the per-element views (components, interfaces, "
+    "network_services, interface_list of nodes / components / services / links / ports) are checked by the oracle only",
 ]
-RULE = ("call histories over both flavours (caller-supplied and generated ids), mostly valid calls with 15% rejected ones; after every call "
-        "all rules are evaluated on the graph extracted from the store; non-trivial = the history reaches >= 1 service with >= 1 connected "
-        "interface; distinct by op-kind sequence hash")
+RULE = ("call histories over both flavours (caller-supplied and generated ids) and both alphabets, mostly valid calls with 15% rejected ones "
+        "plus taken names / taken ids; scripted histories interleaving additions and removals around sub-interfaces, peerings and mirrors; "
+        "after every call all rules are evaluated on the graph extracted from the store, every few calls all views (topology and per element) "
+        "are compared with the graph and every in-place method of dict / list is tried on them; non-trivial = the history reaches >= 1 "
+        "service with >= 1 connected interface; distinct by op-kind sequence hash")
 
 CORPUS = os.path.join(core.CORPUS_DIR, "C07")
 CONTAINMENT = {tuple(sorted([a, b])) + (rel,) for a, rel, b in (
@@ -606,6 +615,13 @@ def deterministic_cases():
         {"op": "ns_add_interface", "svc": "h10", "name": "ii", "itype": "TrunkPort", "kw": []},   # h12
         {"op": "ns_add_interface", "svc": "h11", "name": "ii", "itype": "TrunkPort", "kw": []},   # h13
         {"op": "add_service", "name": "s1", "nstype": "L2Bridge", "ifs": ["h12", "h13"], "kw": []}]))
+    out.append(("rename-then-read-the-views", "exp", base + [
+        {"op": "rename", "h": "h1", "name": "nx"}, {"op": "rename", "h": "h2", "name": "cx"}, {"op": "rename", "h": "h1", "name": "ny"},
+        {"op": "set_props", "h": "h0", "kw": [["capacities", ["cap", {"core": 2, "ram": 8}]]]}]))
+    out.append(("peer-with-itself", "exp", base + [
+        {"op": "add_service", "name": "s1", "nstype": "L3VPN", "ifs": [], "kw": []},              # h10
+        {"op": "_fresh", "kind": "svc", "name": "s1"},                                            # h11: a second handle on the service
+        {"op": "peer", "svc": "h10", "other": "h11", "kw": []}]))             # (one handle object would alias the two handle caches)
     out.append(("node-named-like-facility", "exp", base + [
         {"op": "add_facility", "name": "fx", "site": "RENC", "kw": []},
         {"op": "add_node", "name": "fx", "site": "RENC", "ntype": "VM", "kw": []},
@@ -672,6 +688,30 @@ def interleaved_cases():
                     ("remove_node-of-a-connected-port", [{"op": "remove_node", "name": "n1"}, {"op": "remove_service", "name": "sa"}]),
                     ("remove_component-then-unpeer", [{"op": "remove_component", "parent": "h1", "name": "nic2"}, {"op": "unpeer", "svc": "h10", "other": "h11"}])):
         out.append(("x/peered/" + tag, "exp", two + rm))
+    # peer() followed by the removal of one side as a whole, through every removal route (not unpeer): the other side's
+    # ServicePort must go with the link - topology / node remove_network_service, remove_node / switch / facility of the owner, prune
+    mark = lambda h: {"op": "set_props", "h": h, "kw": [["reservation_info", ["rinfo", "Failed"]]]}
+    out.append(("x/peered/prune-one-side", "exp", two + [mark("h10"), {"op": "prune", "state": "Failed"}]))
+    out.append(("x/peered/prune-owner-of-a-connected-port", "exp", two + [mark("h1"), {"op": "prune", "state": "Failed"}]))
+    nodepeer = base + [{"op": "node_add_service", "parent": "h0", "name": "nsa", "nstype": "OVS", "kw": []},        # h10
+                       {"op": "node_add_service", "parent": "h1", "name": "nsb", "nstype": "OVS", "kw": []},        # h11
+                       {"op": "add_service", "name": "top", "nstype": "L3VPN", "ifs": ["h9"], "kw": []},            # h12
+                       {"op": "peer", "svc": "h10", "other": "h11", "kw": []},
+                       {"op": "peer", "svc": "h12", "other": "h11", "kw": []}]
+    for tag, rm in (("node_remove_service", [{"op": "node_remove_service", "parent": "h0", "name": "nsa"}]),
+                    ("remove_node", [{"op": "remove_node", "name": "n1"}]), ("remove_other_node", [{"op": "remove_node", "name": "n2"}]),
+                    ("remove_service-of-the-top-one", [{"op": "remove_service", "name": "top"}]),
+                    ("remove_service-by-topology", [{"op": "remove_service", "name": "nsb"}]),
+                    ("prune", [mark("h10"), {"op": "prune", "state": "Failed"}])):
+        out.append(("x/node-services-peered/" + tag, "exp", nodepeer + rm))
+    swfac = base + [{"op": "add_switch", "name": "sw1", "site": "RENC", "nports": 1},                               # h10; port h11
+                    {"op": "add_facility", "name": "fac", "site": "RENC", "kw": []},                                # h12; interface h13
+                    {"op": "add_service", "name": "top", "nstype": "L3VPN", "ifs": [], "kw": []},                   # h14
+                    {"op": "_fresh", "kind": "svc", "name": "sw1-ns"}, {"op": "_fresh", "kind": "svc", "name": "fac-ns"},   # h15 h16
+                    {"op": "peer", "svc": "h15", "other": "h14", "kw": []}, {"op": "peer", "svc": "h16", "other": "h14", "kw": []}]
+    for tag, rm in (("remove_switch", [{"op": "remove_switch", "name": "sw1"}]), ("remove_facility", [{"op": "remove_facility", "name": "fac"}]),
+                    ("remove_both", [{"op": "remove_facility", "name": "fac"}, {"op": "remove_switch", "name": "sw1"}, {"op": "remove_service", "name": "top"}])):
+        out.append(("x/switch-facility-peered/" + tag, "exp", swfac + rm))
     pm = base + [{"op": "add_port_mirror", "name": "pm1", "to": "h4", "from_name": "nic2-p1", "from_vlan": None, "direction": "Both", "kw": []}]  # h10
     for tag, rm in rms:
         out.append(("x/mirrored/" + tag, "exp", pm + [rm]))
@@ -742,7 +782,7 @@ def correspondence(ctx, res):
                 st["viewcalls"] = py_view_calls(sess.topo)
     for name, fl, ops in corpus_cases() + deterministic_cases() + interleaved_cases():
         hs.append(c09.run_history(fl, scripted(ops), on_step=grab))
-    n = ctx.scale(24, 110)
+    n = ctx.scale(20, 110)
     for i in range(n):
         fl = "exp" if i % 4 else "sub"
         # every second history also draws from the second alphabet (sub-interfaces, peer/unpeer, port mirror, model_type=, prune)
@@ -818,6 +858,25 @@ def correspondence(ctx, res):
                     res.disagreements.append({"case": dict(w[2], what="verdict of Topo.Inv differs from the rule oracle's",
                                                            differ=sorted(k for k in w[1] if got[k] != w[1][k])),
                                               "impl": w[1], "model": got})
+    # set_property / set_properties with the keywords name / type (Model/TopoExt.lean, through the C07 driver only)
+    rlines, rsteps = [], []
+    for name, fl, ops in retype_cases():
+        rlines.append(json.dumps({"op": "reset"}))
+        rsteps.append(None)
+        for st in c09.run_history(fl, scripted(ops)):
+            rlines.append(T.lean_line(st["line"]))
+            rsteps.append((name, st))
+    for x, r in zip(rsteps, LeanDriver("C07").run(rlines)):
+        if x is None:
+            continue
+        name, st = x
+        m_out, m_snap = T.parse_reply(r)
+        res.evaluations += 1
+        res.count("op:%s(name/type)" % st["op"]["op"] if st["op"]["op"] == "set_props" else "op:" + st["op"]["op"])
+        if m_out[:2] != st["outcome"][:2] or m_snap != st["after"]:
+            res.disagreements.append({"case": {"label": name, "ops": st["history"], "line": st["line"]},
+                                      "impl": {"outcome": st["outcome"][:2], "diff": T.snap_diff(m_snap or {"nodes": [], "edges": []}, st["after"])},
+                                      "model": m_out[:2]})
     res.nontrivial = {x for x in res.nontrivial}
     for h in hs:
         if non_trivial(h):
@@ -926,13 +985,15 @@ def oracle(ctx, res, budget=None):
         run_and_check(fl, ops, res, "corpus:" + name, views_every=1)
     for name, fl, ops in deterministic_cases():
         run_and_check(fl, ops, res, name, views_every=1)
+    for name, fl, ops in retype_cases():
+        run_and_check(fl, ops, res, name, views_every=1)
     for name, fl, ops in interleaved_cases():
-        run_and_check(fl, ops, res, name, views_every=ctx.scale(2, 1), elements_every=ctx.scale(2, 1))
+        run_and_check(fl, ops, res, name, views_every=ctx.scale(3, 1), elements_every=ctx.scale(2, 1))
     if budget is None:
         for fl in ctx.scale(("exp",), ("exp", "sub")):         # C09's scripted failing calls of the second alphabet: the rules hold after each of them too
             for tag, ops in c09.extension_cases(fl, c09.base_ops(fl)):
-                run_and_check(fl, ops, res, "c09ext:" + tag, views_every=ctx.scale(5, 2))
-    n = budget or ctx.scale(24, 200)
+                run_and_check(fl, ops, res, "c09ext:" + tag, views_every=ctx.scale(7, 2))
+    n = budget or ctx.scale(18, 150)
     for i in range(n):
         fl = "exp" if i % 4 else "sub"
         run_and_check(fl, history_gen(ctx.sub_rng("c07oracle/%d" % i), 0.15, ext=(i % 3 != 0)), res, "random", nmax=ctx.scale(25, 40),
